@@ -43,7 +43,8 @@ def shapes():
     return out, sizeonly
 
 
-LINES = ["\n", "a\n", "ab\n", "aab a\n", "éa漢 b\n", "((a))|{1,2}\n", "a" * 300 + "\n", "é" * 120 + "b\n"]
+LINES = ["\n", "a\n", "ab\n", "aab a\n", "éa漢 b\n", "((a))|{1,2}\n", "a" * 300 + "\n", "é" * 120 + "b\n",
+         "a\U0001f600b\n", "\U00010000\U0010ffff a\n"]          # four-byte characters: offsets must fall on their boundaries
 
 
 def upto(n):
